@@ -112,6 +112,10 @@ def gen_history(rng, n_ops, mixed_batches):
                         props.pop('inline_level')       # nullable column: absent in some rows is fine
                 data = {'post_data': rng.choice([None, None, 'a=1'])}
                 batch.append({'url': url, 'props': props, 'data': data})
+            if mixed_batches and len(batch) >= 2 and not no_props_batch and rng.random() < 0.5:
+                # a URL added with an all-default properties object (no parent, no root: what ItemSession.add_url(url) sends)
+                # in one call with links that name theirs
+                batch[rng.randrange(1, len(batch))]['props'] = {}
             if rng.random() < 0.08:
                 # a link that cannot be parsed among the others: the whole call is refused and nothing of it may stick
                 # (the good URLs of the batch are added again later)
@@ -142,7 +146,8 @@ def gen_history(rng, n_ops, mixed_batches):
         elif r < 0.72:
             ops.append({'op': 'release'})
         elif r < 0.78:
-            ops.append({'op': 'remove_many', 'urls': [gen_url(rng, pool) for _ in range(rng.choice([1, 2]))]})
+            ops.append({'op': 'remove_many', 'urls': [gen_url(rng, pool) for _ in range(rng.choice([1, 2]))],
+                        'form': rng.choice(['list', 'list', 'tuple', 'iterator', 'generator', 'keys'])})
         elif r < 0.83:
             ops.append({'op': 'add_visits', 'visits': [[gen_url(rng, pool), '<urn:uuid:%d>' % rng.randrange(50),
                                                        rng.choice(['AAAA', 'BBBB'])] for _ in range(rng.choice([1, 2]))]})
@@ -283,7 +288,12 @@ def run_history(history, part, replay):
                     if row['status'] == 'in_progress':
                         row['status'] = 'todo'
             elif name == 'remove_many':
-                table.remove_many(op['urls'])
+                # any iterable of URL strings (the method just iterates over it)
+                form = op.get('form', 'list')
+                urls_arg = {'list': list, 'tuple': tuple, 'iterator': iter, 'generator': lambda x: (u for u in x),
+                            'keys': lambda x: dict.fromkeys(x).keys()}[form](op['urls'])
+                part.count('remove_many_given_a_' + form)
+                table.remove_many(urls_arg)
                 for u in op['urls']:
                     model.rows.pop(u, None)
             elif name == 'add_visits':
